@@ -163,17 +163,26 @@ func main() {
 	repo := repoDir()
 	shipped := shippedFiles(repo)
 	seed, tier := batch.SeedTier()
-	// index space: canonical files | shipped files | nSyn generated files | history cases
-	nSyn, nHistSeeded := 400, 320
+	// index space: canonical files | shipped files | nSyn generated files | history cases | use-history rig cases
+	nSyn, nHistSeeded, nUseSeeded := 400, 320, 232
 	if tier == "thorough" {
-		nSyn, nHistSeeded = 50000, 8000
+		nSyn, nHistSeeded, nUseSeeded = 50000, 8000, 3000
 	}
+	if len(os.Args) > 2 && os.Args[len(os.Args)-2] == "useplat" && vlib.IsChild() {
+		usePlatChild(repo)
+	}
+	onlyUse := os.Getenv("C13_ONLY") == "use" // development switch: skip everything but the use-history layer
 	plan := planHistory(repo, shipped, canon)
 	histBase := len(canon) + len(shipped) + nSyn
 	nHist := plan.fixed() + nHistSeeded
+	useBase := histBase + nHist
+	nUse := rigCanon + nUseSeeded
 	fileAt := func(sd int64, j int) *fileSpec { return genFile(batch.Rand("C13", sd, "files").ForkN("f", j), j) }
 	run := func(rec vlib.Recorder, sd int64, i int) {
 		switch {
+		case i >= useBase:
+			runUseRig(rec, repo, shipped, sd, i, i-useBase)
+		case onlyUse:
 		case i < len(canon):
 			runSynthetic(rec, canon[i], i)
 		case i < len(canon)+len(shipped):
@@ -186,6 +195,8 @@ func main() {
 	}
 	describe := func(i int) any {
 		switch {
+		case i >= useBase:
+			return genRigCase(repo, shipped, seed, i-useBase)
 		case i < len(canon):
 			return canon[i]
 		case i < len(canon)+len(shipped):
@@ -209,9 +220,11 @@ func main() {
 				Witness struct {
 					CaseIndex    *int `json:"case_index"`
 					HistoryIndex *int `json:"history_index"`
+					UseIndex     *int `json:"use_index"`
+					UsePlatIndex *int `json:"useplat_index"`
 				} `json:"witness"`
 			}
-			if err != nil || json.Unmarshal(b, &rf) != nil || rf.Witness.CaseIndex == nil {
+			if err != nil || json.Unmarshal(b, &rf) != nil || (rf.Witness.CaseIndex == nil && rf.Witness.UsePlatIndex == nil) {
 				fmt.Println("[C13] cannot read a case index from the replay file")
 				os.Exit(2)
 			}
@@ -219,7 +232,13 @@ func main() {
 			c.Seed = rf.Seed
 			d, cleanup := vlib.Scratch("C13-replay")
 			_ = os.Chdir(d)
-			if rf.Witness.HistoryIndex != nil { // history cases are addressed by their own index (independent of the tier's case counts)
+			if rf.Witness.UsePlatIndex != nil { // builds a platform and runs the driver in this process
+				fmt.Printf("[C13] replaying use-history platform case %d (seed %d)\n", *rf.Witness.UsePlatIndex, rf.Seed)
+				runUsePlat(c, repo, rf.Seed, *rf.Witness.UsePlatIndex)
+			} else if rf.Witness.UseIndex != nil {
+				fmt.Printf("[C13] replaying use-history rig case %d (seed %d)\n", *rf.Witness.UseIndex, rf.Seed)
+				runUseRig(c, repo, shipped, rf.Seed, useBase+*rf.Witness.UseIndex, *rf.Witness.UseIndex)
+			} else if rf.Witness.HistoryIndex != nil { // history cases are addressed by their own index (independent of the tier's case counts)
 				fmt.Printf("[C13] replaying history case %d (seed %d)\n", *rf.Witness.HistoryIndex, rf.Seed)
 				runHistory(c, plan, rf.Seed, *rf.Witness.CaseIndex, *rf.Witness.HistoryIndex)
 			} else {
@@ -240,7 +259,7 @@ func main() {
 	if c.Tier != tier || c.Seed != seed {
 		c.Inconclusive("harness bug: tier/seed read differently by vlib.Start and batch.SeedTier")
 	}
-	n := histBase + nHist
+	n := useBase + nUse
 	// the race detector (RACE marker file) must end the child at the first report, inside the case that raced
 	_ = os.Setenv("GORACE", "halt_on_error=1 exitcode=66")
 
@@ -248,7 +267,23 @@ func main() {
 	if c.Thorough() {
 		per = 250
 	}
+	// the use-history cases on the real platforms: one child each, next to the batch children
+	platDone := make(chan struct{})
+	go func() {
+		defer close(platDone)
+		w := 4
+		if c.Thorough() {
+			w = 8
+		}
+		runPlatChildren(c, tier, seed, w)
+	}()
 	batch.Run(c, batch.Opts{N: n, First: len(canon), PerChild: per, OnCrash: func(cr batch.Crash) {
+		if cr.Index >= useBase {
+			c.Violation("C13|"+useKey+"|process-exits-while-loaded-kernels-are-launched",
+				fmt.Sprintf("the process exited with code %d while kernels loaded from well-formed files were handed to the driver (real driver, fake command processors)", cr.ExitCode),
+				map[string]any{"case_index": cr.Index, "use_index": cr.Index - useBase, "case": describe(cr.Index), "output_tail": cr.Tail})
+			return
+		}
 		if cr.Index >= histBase {
 			kind, _ := plan.kindOf(cr.Index - histBase)
 			key, what := "C13|history|loader-exits-process", "inside a sequence of loads of well-formed code objects (log.Fatal in the loader?)"
@@ -267,6 +302,7 @@ func main() {
 		c.Violation("C13|loader-exits-process", fmt.Sprintf("the process exited with code %d while loading a well-formed code object (log.Fatal in the loader?)", cr.ExitCode),
 			map[string]any{"case_index": cr.Index, "case": describe(cr.Index), "output_tail": cr.Tail})
 	}})
+	<-platDone
 	if len(shipped) < 70 {
 		c.Inconclusive(fmt.Sprintf("only %d shipped .hsaco files found under %s/amd", len(shipped), repo))
 	}
@@ -292,6 +328,14 @@ func main() {
 				"two results of separate loads sharing storage (the API documents no sharing), a data race between concurrent loads of memory nobody writes",
 			"history oracle: generated images and their variants - the (modified) description; shipped and patched shipped images - the harness' debug/elf extractor run over the current bytes. " +
 				"The 'descriptor words read 4 bytes early' model of the fixed known finding is not applied in history comparisons",
+			"use-history: 'metadata as stored in the file' covers every exported field of KernelCodeObjectMeta, Version, Data and Symbol of a loaded object for as long as the caller keeps it: the driver owns none of them " +
+				"(the unchanged tree keeps device addresses in its own map keyed by the object pointer and never writes to the object); the code object inside a LaunchKernelReq may be the loaded object or a copy, it is judged by value at send time",
+			"use-history dispatch oracle (amd/driver/kernel.go prepareLocalMemory as documented by its code): LocalPtr argument i gets LDS offset = the file's static LDS size + the sizes of the LocalPtr arguments in front of it, without padding; " +
+				"packet.GroupSegmentSize = static size + all LocalPtr sizes, not rounded; the other argument bytes reach the device unchanged; the caller's argument block is the request (what the caller wrote into it), also when the same block is handed in again; " +
+				"the kernarg allocation (driver verif hook Context.VerifBuffers) has the file's kernarg size and the code allocation the kernel's instruction byte count; " +
+				"packet.PrivateSegmentSize is not populated by the driver today (0; the compute units read the code object): 0 or the file's private size are accepted (counter note_packet_private_segment_size_not_populated)",
+			"use-history: kernels whose file stores kernarg size 0 are loaded and re-checked but not launched (the driver cannot allocate an empty kernarg segment); generated argument blocks are never longer than the file's kernarg size; " +
+				"launch geometry and work-group filters are not judged here (C08); two queues of one context never have launches of a shared code object in flight together (open finding C12|second-queue-launches-cached-code-before-upload)",
 		},
 		MinNontrivial: 200,
 		MinCounters: map[string]int64{
@@ -306,6 +350,15 @@ func main() {
 			"history_loads": 50000, "history_loads_reused-buffer": 30000, "history_reused_loads_contents_changed_for_kernel": 10000, "history_reused_loads_code_object_version_changed": 500,
 			"history_in_place_patches": 3000, "history_loads_after_in_place_patch": 5000, "history_results_mutated": 1000, "history_loads_after_result_mutation": 1000,
 			"history_loads_fresh-slice": 2000, "history_loads_reused-path": 2000, "history_loads_shared-elf-file": 3000, "history_loads_elf-over-reused-buffer": 1000,
+			// use-history
+			"use_cases": 200, "use_cases_rig_canonical": 8, "use_cases_plat": 9, "use_cases_plat_emu": 5, "use_cases_plat_timing": 2, "use_cases_plat_with_unified_device": 1,
+			"use_launches": 1500, "use_launches_emu": 50, "use_launches_timing": 5, "use_launches_with_local_ptr": 900, "use_launches_with_local_ptr_and_static_lds": 300,
+			"use_launches_with_several_local_ptrs": 400, "use_launches_with_zero_sized_local_ptr": 100, "use_launches_on_unified_device": 200, "use_launches_blocking_api": 10,
+			"use_launches_reusing_argument_block": 150, "use_launches_with_benchmark_argument_type": 150,
+			"use_relaunches_of_same_object": 1000, "use_relaunches_after_local_ptr_launch": 700, "use_objects_compared_after_launch": 3000, "use_unlaunched_objects_compared": 1500,
+			"use_fresh_loads_after_launch": 800, "use_fresh_loads_interleaved": 150, "use_wire_launches_judged": 1800, "use_wire_launches_of_unified_device": 400,
+			"use_local_ptr_offsets_checked": 2500, "use_local_ptr_offsets_checked_after_local_ptr_launch": 1200, "use_group_segment_sizes_checked": 1800,
+			"use_kernarg_segment_sizes_checked": 1500, "use_kernarg_bytes_compared": 60000, "use_code_bytes_on_device_compared": 1000000, "use_kernel_results_checked": 50,
 			"history_concurrent_loads": 8000, "history_concurrent_goroutines": 150, "history_earlier_results_rechecked": 40000, "history_autodetect_loads": 300,
 		},
 	})
